@@ -739,3 +739,624 @@ Proof.
     now rewrite words_lstrip.
   - now apply lw_none.
 Qed.
+
+(* ====================================================================== *)
+(* 3. list surgery by index, on lists given as concatenations              *)
+(* ====================================================================== *)
+Section Surgery.
+Context {A : Type}.
+Implicit Types (a b : list A) (x y : A).
+
+Lemma firstn_mid a b : firstn (length a) (a ++ b) = a.
+Proof. rewrite firstn_app, Nat.sub_diag, firstn_all. simpl. apply app_nil_r. Qed.
+Lemma skipn_mid a b : skipn (length a) (a ++ b) = b.
+Proof. rewrite skipn_app, Nat.sub_diag, skipn_all. reflexivity. Qed.
+Lemma nth_error_mid a x b : nth_error (a ++ x :: b) (length a) = Some x.
+Proof. rewrite nth_error_app2, Nat.sub_diag by lia. reflexivity. Qed.
+Lemma skipn_mid_S a x b : skipn (S (length a)) (a ++ x :: b) = b.
+Proof. induction a as [|z a IH]; [reflexivity|]. exact IH. Qed.
+Lemma insert_at_mid a y b : insert_at (length a) y (a ++ b) = a ++ y :: b.
+Proof. unfold insert_at. now rewrite firstn_mid, skipn_mid. Qed.
+Lemma set_at_mid a x y b : set_at (length a) y (a ++ x :: b) = a ++ y :: b.
+Proof.
+  unfold set_at. now rewrite firstn_mid, skipn_mid_S.
+Qed.
+Lemma delete_at_mid a x b : delete_at (length a) (a ++ x :: b) = a ++ b.
+Proof.
+  unfold delete_at. now rewrite firstn_mid, skipn_mid_S.
+Qed.
+Lemma insert_at_S a x y b : insert_at (S (length a)) y (a ++ x :: b) = a ++ x :: y :: b.
+Proof. unfold insert_at. rewrite skipn_mid_S.
+  replace (a ++ x :: b) with ((a ++ [x]) ++ b) by (now rewrite <- app_assoc).
+  replace (S (length a)) with (length (a ++ [x])) by (rewrite app_length; simpl; lia).
+  rewrite firstn_mid. now rewrite <- app_assoc. Qed.
+Lemma insert_at_1 a x y b : insert_at (length a + 1) y (a ++ x :: b) = a ++ x :: y :: b.
+Proof. rewrite Nat.add_1_r. apply insert_at_S. Qed.
+Lemma insert_at_2 a x1 x2 y b : insert_at (length a + 2) y (a ++ x1 :: x2 :: b) = a ++ x1 :: x2 :: y :: b.
+Proof.
+  replace (length a + 2) with (S (length (a ++ [x1]))) by (rewrite app_length; simpl; lia).
+  replace (a ++ x1 :: x2 :: b) with ((a ++ [x1]) ++ x2 :: b) by (now rewrite <- app_assoc).
+  rewrite insert_at_S. now rewrite <- app_assoc.
+Qed.
+Lemma reassoc a x m z : (a ++ x :: m) ++ z = a ++ x :: m ++ z.
+Proof. now rewrite <- app_assoc. Qed.
+End Surgery.
+
+Definition indent_hd (l : list str) : list str :=
+  match l with [] => [] | x :: r => indent1 x :: r end.
+
+Lemma indent_range_zero l : forall a, indent_range a 0 l = l.
+Proof. destruct l; reflexivity. Qed.
+
+Lemma indent_range_skip p : forall n m l,
+  indent_range (length p + n) (length p + m) (p ++ l) = p ++ indent_range n m l.
+Proof.
+  induction p as [|x p IH]; intros n m l; [reflexivity|]. cbn [length app plus indent_range].
+  now rewrite IH.
+Qed.
+
+Lemma indent_range_map m : forall k l,
+  indent_range 0 (length m + k) (m ++ l) = map indent1 m ++ indent_range 0 k l.
+Proof.
+  induction m as [|x m IH]; intros k l; [reflexivity|]. cbn [length app plus indent_range map].
+  now rewrite IH.
+Qed.
+
+Lemma indent_range_clip l : forall a b, indent_range a (Nat.min (length l) b) l = indent_range a b l.
+Proof.
+  induction l as [|x l IH]; intros a b; [reflexivity|]. destruct b as [|b]; [reflexivity|].
+  cbn [length Nat.min indent_range]. destruct a; now rewrite IH.
+Qed.
+
+Lemma indent_range_one l : indent_range 0 1 l = indent_hd l.
+Proof. destruct l as [|x l]; [reflexivity|]. cbn [indent_range indent_hd]. now rewrite indent_range_zero. Qed.
+
+Lemma indent_range_two x l : indent_range 0 2 (x :: l) = indent1 x :: indent_hd l.
+Proof. cbn [indent_range]. now rewrite indent_range_one. Qed.
+
+(* the range (length p0, length p0 + length m + k) of p0 ++ m ++ z *)
+Lemma indent_range_block p0 m k z :
+  indent_range (length p0) (length p0 + length m + k) (p0 ++ m ++ z)
+  = p0 ++ map indent1 m ++ indent_range 0 k z.
+Proof.
+  rewrite <- (Nat.add_0_r (length p0)) at 1. rewrite <- Nat.add_assoc.
+  now rewrite indent_range_skip, indent_range_map.
+Qed.
+
+Definition title_block (ind ty post : str) : list str :=
+  title_line ind ty :: match post with [] => [] | _ => [INDENT ++ ind ++ post] end.
+
+(* rewriting of the line that carries the end marker: the kept text before it, the new lines after it *)
+Definition end_keep (pre : str) : list str := if all_space pre then [] else [pre].
+Definition end_extra (epost : str) : list str := match epost with [] => [] | _ => [[]; epost] end.
+
+Lemma indent_hd_extra epost r :
+  indent_hd (end_extra epost ++ r) = match epost with [] => indent_hd r | _ => end_extra epost ++ r end.
+Proof. destruct epost; reflexivity. Qed.
+
+Lemma indent_range_le l : forall a b, b <= a -> indent_range a b l = l.
+Proof.
+  induction l as [|x l IH]; intros a b H; [reflexivity|]. destruct b as [|b]; [reflexivity|].
+  destruct a as [|a]; [lia|]. cbn [indent_range]. rewrite IH by lia. reflexivity.
+Qed.
+
+(* range (start+1, e+1) where e is the index of the first line of z *)
+Lemma indent_range_IR1 a1 ls m z :
+  indent_range (S (length a1)) (S (length (a1 ++ ls :: m))) (a1 ++ ls :: m ++ z)
+  = a1 ++ ls :: map indent1 m ++ indent_hd z.
+Proof.
+  replace (S (length a1)) with (length (a1 ++ [ls])) by (rewrite app_length; simpl; lia).
+  replace (S (length (a1 ++ ls :: m))) with (length (a1 ++ [ls]) + length m + 1)
+    by (rewrite !app_length; simpl; lia).
+  replace (a1 ++ ls :: m ++ z) with ((a1 ++ [ls]) ++ m ++ z) by app_norm.
+  rewrite indent_range_block, indent_range_one. app_norm.
+Qed.
+
+Lemma indent_range_IR2 a1 ls m x z :
+  indent_range (S (length a1)) (S (S (length (a1 ++ ls :: m)))) (a1 ++ ls :: m ++ x :: z)
+  = a1 ++ ls :: map indent1 m ++ indent1 x :: indent_hd z.
+Proof.
+  replace (S (length a1)) with (length (a1 ++ [ls])) by (rewrite app_length; simpl; lia).
+  replace (S (S (length (a1 ++ ls :: m)))) with (length (a1 ++ [ls]) + length m + 2)
+    by (rewrite !app_length; simpl; lia).
+  replace (a1 ++ ls :: m ++ x :: z) with ((a1 ++ [ls]) ++ m ++ x :: z) by app_norm.
+  rewrite indent_range_block, indent_range_two. app_norm.
+Qed.
+
+Lemma indent_range_IR3 a1 ls z :
+  indent_range (S (length a1)) (S (S (length a1))) (a1 ++ ls :: z) = a1 ++ ls :: indent_hd z.
+Proof.
+  replace (S (length a1)) with (length (a1 ++ [ls]) + 0) at 1 by (rewrite app_length; simpl; lia).
+  replace (S (S (length a1))) with (length (a1 ++ [ls]) + 1) by (rewrite app_length; simpl; lia).
+  replace (a1 ++ ls :: z) with ((a1 ++ [ls]) ++ z) by app_norm.
+  rewrite indent_range_skip, indent_range_one. app_norm.
+Qed.
+
+(* the start line is rewritten last *)
+Lemma step_finish ty a1 ls rest p ind ty' post :
+  adm_search ls = Some (p, ind, ty', post) ->
+  match nth_error (a1 ++ ls :: rest) (length a1) with
+  | None => Err EIndex
+  | Some ls0 =>
+    match adm_search ls0 with
+    | None => Err EMissingStart
+    | Some (_, ind0, _, post0) =>
+      let lines3 := set_at (length a1) (title_line ind0 ty) (a1 ++ ls :: rest) in
+      Ok (match post0 with
+          | [] => lines3
+          | _ => insert_at (S (length a1)) (INDENT ++ ind0 ++ post0) lines3
+          end)
+    end
+  end = Ok (a1 ++ title_block ind ty post ++ rest).
+Proof.
+  intros HS. rewrite nth_error_mid, HS. cbv zeta. rewrite set_at_mid. unfold title_block.
+  destruct post as [|c post]; [reflexivity|]. now rewrite insert_at_S.
+Qed.
+
+(* end line further down, without an end marker on it *)
+Lemma step_far_noend ty a1 ls m le r p ind ty' post :
+  adm_search ls = Some (p, ind, ty', post) -> end_search le = None ->
+  step (ty, length a1, length (a1 ++ ls :: m)) (a1 ++ ls :: m ++ le :: r)
+  = Ok (a1 ++ title_block ind ty post ++ map indent1 m ++ indent1 le :: r).
+Proof.
+  intros HS HE. unfold step. rewrite <- (reassoc a1 ls m (le :: r)).
+  rewrite nth_error_mid, HE, indent_range_clip, reassoc, indent_range_IR1. cbn [indent_hd].
+  exact (step_finish ty a1 ls _ p ind ty' post HS).
+Qed.
+
+(* end line further down, with an end marker *)
+Lemma step_far_end ty a1 ls m le r p ind ty' post pre ety epost :
+  adm_search ls = Some (p, ind, ty', post) -> end_search le = Some (pre, ety, epost) ->
+  step (ty, length a1, length (a1 ++ ls :: m)) (a1 ++ ls :: m ++ le :: r)
+  = Ok (a1 ++ title_block ind ty post ++ map indent1 m ++ map indent1 (end_keep pre)
+           ++ indent_hd (end_extra epost ++ r)).
+Proof.
+  intros HS HE. unfold step. rewrite <- (reassoc a1 ls m (le :: r)).
+  rewrite nth_error_mid, HE. unfold end_keep, end_extra.
+  destruct epost as [|c epost].
+  - rewrite set_at_mid. destruct (all_space pre).
+    + rewrite delete_at_mid, indent_range_clip, reassoc, indent_range_IR1.
+      exact (step_finish ty a1 ls _ p ind ty' post HS).
+    + rewrite indent_range_clip, reassoc, indent_range_IR2.
+      exact (step_finish ty a1 ls _ p ind ty' post HS).
+  - rewrite insert_at_1, insert_at_2, set_at_mid. destruct (all_space pre).
+    + rewrite delete_at_mid, indent_range_clip, reassoc, indent_range_IR1.
+      exact (step_finish ty a1 ls _ p ind ty' post HS).
+    + rewrite indent_range_clip, reassoc, indent_range_IR2.
+      exact (step_finish ty a1 ls _ p ind ty' post HS).
+Qed.
+
+(* box that starts and ends on the same line *)
+Lemma step_same_noend ty a1 ls r p ind ty' post :
+  adm_search ls = Some (p, ind, ty', post) -> end_search ls = None ->
+  step (ty, length a1, length a1) (a1 ++ ls :: r) = Ok (a1 ++ title_block ind ty post ++ r).
+Proof.
+  intros HS HE. unfold step. rewrite nth_error_mid, HE, indent_range_clip.
+  rewrite indent_range_le by lia. exact (step_finish ty a1 ls _ p ind ty' post HS).
+Qed.
+
+Lemma step_same_end ty a1 ls r pre ety epost p ind ty' postS :
+  end_search ls = Some (pre, ety, epost) -> all_space pre = false ->
+  adm_search pre = Some (p, ind, ty', postS) ->
+  step (ty, length a1, length a1) (a1 ++ ls :: r)
+  = Ok (a1 ++ title_block ind ty postS ++ indent_hd (end_extra epost ++ r)).
+Proof.
+  intros HE Hb HS. unfold step. rewrite nth_error_mid, HE. unfold end_extra.
+  destruct epost as [|c epost].
+  - rewrite set_at_mid, Hb, indent_range_clip, indent_range_IR3.
+    exact (step_finish ty a1 pre _ p ind ty' postS HS).
+  - rewrite insert_at_1, insert_at_2, set_at_mid, Hb, indent_range_clip, indent_range_IR3.
+    exact (step_finish ty a1 pre _ p ind ty' postS HS).
+Qed.
+
+(* ====================================================================== *)
+(* 4. the two passes, in a form suited to induction                        *)
+(* ====================================================================== *)
+Definition lift {A} (acc : list A) (r : result (list A)) : result (list A) :=
+  match r with Ok x => Ok (acc ++ x) | Err e => Err e end.
+
+(* _find_admonitions, emitting the records in order instead of appending to an accumulator *)
+Fixpoint find_emit (idx : nat) (cur : option cur_t) (l : list str) : result (list adm) :=
+  match l with
+  | [] => Ok (match cur with Some c => [close_at c (idx - 1)] | None => [] end)
+  | line :: rest =>
+    let '(em, cur1) :=
+      match adm_search line with
+      | Some (_, _, ty, _) =>
+        (match cur with Some c => [close_at c idx] | None => [] end, Some (ty, idx, None))
+      | None => ([], cur)
+      end in
+    match end_search line with
+    | Some (_, ety, _) =>
+      match cur1 with
+      | None => Err EEndNoStart
+      | Some (ty, st, _) =>
+        if str_eqb (lower ety) (lower ty)
+        then lift (em ++ [(ty, st, idx)]) (find_emit (S idx) None rest)
+        else Err ETypeMismatch
+      end
+    | None =>
+      match cur1 with
+      | None => lift em (find_emit (S idx) None rest)
+      | Some (ty, st, eo) =>
+        let eo' := match eo with
+                   | None => if is_empty line then Some idx else None
+                   | Some _ => eo
+                   end in
+        lift em (find_emit (S idx) (Some (ty, st, eo')) rest)
+      end
+    end
+  end.
+
+Lemma lift_lift {A} (a b : list A) r : lift a (lift b r) = lift (a ++ b) r.
+Proof. destruct r; simpl; [now rewrite app_assoc|reflexivity]. Qed.
+
+Lemma find_loop_emit l : forall idx acc cur,
+  find_loop idx acc cur l = lift acc (find_emit idx cur l).
+Proof.
+  induction l as [|x l IH]; intros idx acc cur.
+  - simpl. destruct cur; simpl; [reflexivity|now rewrite app_nil_r].
+  - cbn [find_loop find_emit].
+    destruct (adm_search x) as [[[[p ind] ty] post]|]; destruct (end_search x) as [[[pre ety] epost]|];
+      destruct cur as [[[cty cst] ceo]|]; cbn [fst snd];
+      try destruct (str_eqb (lower ety) (lower ty)); try destruct (str_eqb (lower ety) (lower cty));
+      try reflexivity; rewrite IH, ?lift_lift, ?app_nil_r, <- ?app_assoc; reflexivity.
+Qed.
+
+Lemma find_admonitions_emit l : find_admonitions l = find_emit 0 None l.
+Proof.
+  unfold find_admonitions. rewrite find_loop_emit. destruct (find_emit 0 None l); reflexivity.
+Qed.
+
+(* _process_admonitions: the last record first *)
+Fixpoint process_rec (adms : list adm) (lines : list str) : result (list str) :=
+  match adms with
+  | [] => Ok lines
+  | a :: more => bind (process_rec more lines) (step a)
+  end.
+
+Lemma process_admonitions_rec adms lines : process_admonitions adms lines = process_rec adms lines.
+Proof.
+  unfold process_admonitions. induction adms as [|a adms IH]; [reflexivity|].
+  cbn [rev process_rec]. now rewrite fold_left_app, IH.
+Qed.
+
+Lemma process_rec_app a b lines :
+  process_rec (a ++ b) lines = bind (process_rec b lines) (process_rec a).
+Proof.
+  induction a as [|x a IH]; simpl.
+  - now destruct (process_rec b lines).
+  - rewrite IH. destruct (process_rec b lines); reflexivity.
+Qed.
+
+(* ====================================================================== *)
+(* 5. words of the rewritten pieces                                        *)
+(* ====================================================================== *)
+Lemma words_app l1 l2 : words (l1 ++ l2) = words l1 ++ words l2.
+Proof. apply flat_map_app. Qed.
+Lemma words_cons x l : words (x :: l) = words_line x ++ words l.
+Proof. reflexivity. Qed.
+
+Lemma INDENT_blank : blank INDENT.
+Proof. repeat constructor. Qed.
+
+Lemma words_indent1 x : words_line (indent1 x) = words_line x.
+Proof. destruct x as [|c x]; [reflexivity|]. unfold indent1. apply words_blank_app, INDENT_blank. Qed.
+
+Lemma words_map_indent1 m : words (map indent1 m) = words m.
+Proof. induction m as [|x m IH]; [reflexivity|]. cbn [map]. now rewrite !words_cons, words_indent1, IH. Qed.
+
+Lemma words_indent_hd l : words (indent_hd l) = words l.
+Proof. destruct l as [|x l]; [reflexivity|]. cbn [indent_hd]. now rewrite !words_cons, words_indent1. Qed.
+
+Lemma words_end_keep pre : words (map indent1 (end_keep pre)) = words_line pre.
+Proof.
+  unfold end_keep. destruct (all_space pre) eqn:E.
+  - apply all_space_blank in E. now rewrite words_blank.
+  - cbn [map]. rewrite words_cons, words_indent1. apply app_nil_r.
+Qed.
+
+Lemma words_end_extra epost : words (end_extra epost) = words_line epost.
+Proof. destruct epost as [|c e]; [reflexivity|]. unfold end_extra. rewrite !words_cons. cbn [words_line words flat_map app]. apply app_nil_r. Qed.
+
+(* the capitalised type is one solid word without '@' *)
+Lemma upper_of_letter c : is_lower (lower_ch c) = true -> upper_ch c <> at_ch /\ is_space (upper_ch c) = false.
+Proof.
+  destruct c as [[] [] [] [] [] [] [] []]; vm_compute; intros H; first [discriminate H | split; [discriminate|reflexivity]].
+Qed.
+
+Lemma capitalize_good ty : typ_ok ty ->
+  capitalize ty <> [] /\ solid (capitalize ty) /\ Forall (fun c => c <> at_ch) (capitalize ty).
+Proof.
+  intros H. destruct ty as [|c ty]; [now destruct (typ_solid [] H)|].
+  split; [discriminate|]. cbn [capitalize].
+  assert (Hc : is_lower (lower_ch c) = true /\ Forall (fun d => is_lower d = true) (lower ty)).
+  { destruct (typ_cases _ H) as [E|[E|[E|[E|E]]]]; injection E as -> ->; split; repeat constructor. }
+  destruct Hc as [Hc Hty]. destruct (upper_of_letter c Hc) as [H1 H2]. split; constructor; auto.
+  - eapply Forall_impl; [|exact Hty]. intros d Hd. destruct (is_space d) eqn:E; [|reflexivity].
+    exfalso. revert Hd E. clear. destruct d as [[] [] [] [] [] [] [] []]; vm_compute; congruence.
+  - eapply Forall_impl; [|exact Hty]. intros d Hd ->. discriminate.
+Qed.
+
+Definition titled (y : str) : Prop :=
+  exists ind ty, blank ind /\ typ_ok ty /\ y = title_line ind ty.
+
+Lemma words_title ind ty : blank ind -> typ_ok ty ->
+  words_line (title_line ind ty) = [s "@note"; capitalize ty].
+Proof.
+  intros Hi Hty. unfold title_line. destruct (capitalize_good ty Hty) as (Hne & Hsol & _).
+  change (s "@note " ++ capitalize ty) with (s "@note" ++ " "%char :: capitalize ty).
+  rewrite words_token0; [|exact Hi|discriminate|repeat constructor|reflexivity].
+  f_equal. rewrite words_cons_space by reflexivity.
+  rewrite <- (app_nil_r (capitalize ty)) at 1.
+  rewrite words_solid_app; [reflexivity|exact Hne|exact Hsol|reflexivity].
+Qed.
+
+Lemma titled_end y : titled y -> end_search y = None.
+Proof.
+  intros (ind & ty & Hi & Hty & ->). unfold end_search, title_line.
+  rewrite (scan_skip end_here ind _ end_here_at (blank_no_at ind Hi)).
+  destruct (capitalize_good ty Hty) as (_ & _ & Hat).
+  assert (E : scan end_here (s "@note " ++ capitalize ty) = None).
+  { change (s "@note " ++ capitalize ty) with (at_ch :: s "note " ++ capitalize ty).
+    cbn [scan]. assert (Hh : end_here (at_ch :: s "note " ++ capitalize ty) = None) by reflexivity.
+    rewrite Hh. rewrite <- (app_nil_r (s "note " ++ capitalize ty)).
+    rewrite (scan_skip end_here _ [] end_here_at).
+    - reflexivity.
+    - apply Forall_app. split; [repeat constructor; discriminate|exact Hat]. }
+  now rewrite E.
+Qed.
+
+Lemma titled_indent y : titled y -> titled (indent1 y).
+Proof.
+  intros (ind & ty & Hi & Hty & ->). exists (INDENT ++ ind), ty. repeat split; auto.
+  - apply Forall_app. split; [apply INDENT_blank|exact Hi].
+  - unfold indent1, title_line. destruct (ind ++ s "@note " ++ capitalize ty) eqn:E.
+    + destruct ind; discriminate E.
+    + rewrite <- E. now rewrite <- app_assoc.
+Qed.
+
+Lemma words_title_block ind ty post : blank ind -> typ_ok ty ->
+  words (title_block ind ty post) = [s "@note"; capitalize ty] ++ words_line post.
+Proof.
+  intros Hi Hty. unfold title_block. rewrite words_cons, words_title by assumption.
+  destruct post as [|c post]; [reflexivity|]. rewrite words_cons. cbn [words flat_map].
+  rewrite app_nil_r. f_equal. rewrite app_assoc. apply words_blank_app.
+  apply Forall_app. split; [apply INDENT_blank|exact Hi].
+Qed.
+
+(* ====================================================================== *)
+(* 6. the global argument                                                  *)
+(* ====================================================================== *)
+Definition plain (x : str) : Prop := adm_search x = None /\ end_search x = None.
+
+(* an admonition opened at line [ls] (index length a1), lines a2 seen since, all plain *)
+Record open_ok (a1 : list str) (ls : str) (a2 : list str) (ty : str) (eo : option nat)
+       (ind post : str) : Prop := {
+  oo_start : adm_search ls = Some ([], ind, ty, post);
+  oo_noend : end_search ls = None;
+  oo_ind : blank ind;
+  oo_ty : typ_ok ty;
+  oo_lw : lw ls = [s "@note"; capitalize ty] ++ words_line post;
+  oo_plain : Forall plain a2;
+  oo_eo : match eo with
+          | None => True
+          | Some e0 => exists m m2, a2 = m ++ [] :: m2 /\ e0 = length (a1 ++ ls :: m)
+          end
+}.
+
+Lemma end_search_nil : end_search [] = None.
+Proof. reflexivity. Qed.
+
+Ltac wsolve :=
+  repeat (rewrite words_app || rewrite words_end_keep || rewrite words_map_indent1 || rewrite words_cons
+          || rewrite words_indent1 || rewrite words_indent_hd || rewrite words_end_extra);
+  cbn [indent1 words_line app words flat_map]; rewrite <- ?app_assoc; cbn [app]; rewrite ?app_nil_r; reflexivity.
+
+Lemma reassoc2 {A} (a : list A) x m z w : (a ++ x :: m ++ z) ++ w = a ++ x :: m ++ z ++ w.
+Proof. app_norm. Qed.
+
+(* closing the open admonition when the line at its end index carries no end marker: the end
+   index is an earlier empty line, or the next line [y] (a title line, or the end of the text) *)
+Lemma close_noend a1 ls a2 ty eo ind post y T :
+  open_ok a1 ls a2 ty eo ind post -> end_search y = None ->
+  exists T',
+    step (ty, length a1, match eo with Some e0 => e0 | None => length (a1 ++ ls :: a2) end)
+         ((a1 ++ ls :: a2) ++ y :: T) = Ok (a1 ++ title_block ind ty post ++ T')
+    /\ words T' = words a2 ++ words (y :: T).
+Proof.
+  intros [HS HE Hi Hty Hlw Hpl Heo] Hy. destruct eo as [e0|].
+  - destruct Heo as (m & m2 & -> & ->). rewrite reassoc2. cbn [app].
+    rewrite (step_far_noend ty a1 ls m _ _ [] ind ty post HS end_search_nil).
+    eexists. split; [reflexivity|].
+    wsolve.
+  - rewrite reassoc.
+    rewrite (step_far_noend ty a1 ls a2 y T [] ind ty post HS Hy).
+    eexists. split; [reflexivity|].
+    wsolve.
+Qed.
+
+(* the same at the end of the text *)
+Lemma close_eof a1 ls a2 ty eo ind post :
+  open_ok a1 ls a2 ty eo ind post ->
+  exists T',
+    step (close_at (ty, length a1, eo) (length (a1 ++ ls :: a2) - 1)) (a1 ++ ls :: a2)
+    = Ok (a1 ++ title_block ind ty post ++ T')
+    /\ words T' = words a2.
+Proof.
+  intros [HS HE Hi Hty Hlw Hpl Heo]. unfold close_at. destruct eo as [e0|].
+  - destruct Heo as (m & m2 & -> & ->).
+    rewrite (step_far_noend ty a1 ls m _ _ [] ind ty post HS end_search_nil).
+    eexists. split; [reflexivity|].
+    wsolve.
+  - destruct a2 as [|z a2] using rev_ind.
+    + replace (length (a1 ++ [ls]) - 1) with (length a1) by (rewrite app_length; simpl; lia).
+      rewrite (step_same_noend ty a1 ls [] [] ind ty post HS HE).
+      exists []. split; [reflexivity|reflexivity].
+    + clear IHa2. apply Forall_app in Hpl as [Hpl Hz]. inversion Hz as [|? ? [_ Hze] _]; subst.
+      replace (length (a1 ++ ls :: a2 ++ [z]) - 1) with (length (a1 ++ ls :: a2))
+        by (rewrite !app_length; simpl; rewrite app_length; simpl; lia).
+      rewrite (step_far_noend ty a1 ls a2 z [] [] ind ty post HS Hze).
+      eexists. split; [reflexivity|].
+      wsolve.
+Qed.
+
+(* closing at a line [x] that carries the end marker *)
+Lemma close_end a1 ls a2 ty eo ind post x pre ety epost T :
+  open_ok a1 ls a2 ty eo ind post -> end_search x = Some (pre, ety, epost) ->
+  exists T',
+    step (ty, length a1, length (a1 ++ ls :: a2)) ((a1 ++ ls :: a2) ++ x :: T)
+    = Ok (a1 ++ title_block ind ty post ++ T')
+    /\ words T' = words a2 ++ words_line pre ++ words_line epost ++ words T.
+Proof.
+  intros [HS HE Hi Hty Hlw Hpl Heo] Hx. rewrite reassoc.
+  rewrite (step_far_end ty a1 ls a2 x T [] ind ty post pre ety epost HS Hx).
+  eexists. split; [reflexivity|].
+  wsolve.
+Qed.
+
+Definition starts_titled (T : list str) : Prop := exists y T', T = y :: T' /\ titled y.
+
+Lemma title_block_titled ind ty post T : blank ind -> typ_ok ty ->
+  starts_titled (title_block ind ty post ++ T).
+Proof. intros Hi Hty. unfold title_block. eexists _, _. split; [reflexivity|]. now exists ind, ty. Qed.
+
+(* what processing the records found in [r] (scanned from index length a in state cur) does *)
+Definition post_cond (a : list str) (cur : option cur_t) (r : list str) (adms : list adm) : Prop :=
+  match cur with
+  | None =>
+    exists T, process_rec adms (a ++ r) = Ok (a ++ T) /\ words T = flat_map lw r /\
+              (match r with
+               | x :: _ => (adm_search x <> None -> starts_titled T) /\ (plain x -> exists T', T = x :: T')
+               | [] => True
+               end)
+  | Some (ty, st, eo) =>
+    forall a1 ls a2 ind post,
+      a = a1 ++ ls :: a2 -> st = length a1 -> open_ok a1 ls a2 ty eo ind post ->
+      exists T', process_rec adms (a ++ r) = Ok (a1 ++ title_block ind ty post ++ T') /\
+                 words T' = words a2 ++ flat_map lw r
+  end.
+
+Lemma lift_ok {A} (acc : list A) r x : lift acc r = Ok x -> exists y, r = Ok y /\ x = acc ++ y.
+Proof. destruct r as [y|e]; simpl; intros H; [|discriminate]. injection H as <-. now exists y. Qed.
+
+Lemma adm_search_nil : adm_search [] = None.
+Proof. reflexivity. Qed.
+
+Lemma process_one c L : process_rec [c] L = step c L.
+Proof. reflexivity. Qed.
+
+Lemma main r : forall a cur adms,
+  Forall LF r -> find_emit (length a) cur r = Ok adms -> post_cond a cur r adms.
+Proof.
+  induction r as [|x r IH]; intros a cur adms HLF Hfind.
+  - (* end of the text *)
+    cbn [find_emit] in Hfind. injection Hfind as <-. destruct cur as [[[ty st] eo]|]; cbn [post_cond].
+    + intros a1 ls a2 ind post -> -> Hopen. rewrite app_nil_r. cbn [process_rec bind].
+      destruct (close_eof a1 ls a2 ty eo ind post Hopen) as (T' & Hs & Hw).
+      exists T'. split; [exact Hs|]. cbn [flat_map]. now rewrite Hw, app_nil_r.
+    + exists []. repeat split; auto.
+  - inversion HLF as [|? ? Hx HLF']; subst. cbn [find_emit] in Hfind. unfold LF in Hx.
+    assert (Hlen : S (length a) = length (a ++ [x])) by (rewrite app_length; simpl; lia).
+    assert (Happ : forall z, a ++ x :: z = (a ++ [x]) ++ z) by (intros; app_norm).
+    destruct (adm_search x) as [[[[p ind'] ty'] post']|] eqn:ES;
+      destruct (end_search x) as [[[pre ety] epost]|] eqn:EE.
+    + (* ---- start and end marker on x ---- *)
+      destruct Hx as (-> & Hi' & Hty' & Hpre & postS & HSpre & Hlwx).
+      destruct (str_eqb (lower ety) (lower ty')); [|destruct cur as [[[? ?] ?]|]; discriminate].
+      assert (Hcommon : exists adms0 T0 em,
+                 adms = (em ++ [(ty', length a, length a)]) ++ adms0 /\
+                 em = match cur with Some c => [close_at c (length a)] | None => [] end /\
+                 process_rec adms0 (a ++ x :: r) = Ok (a ++ x :: T0) /\ words T0 = flat_map lw r).
+      { destruct cur as [[[cty cst] ceo]|]; apply lift_ok in Hfind as (adms0 & Hf0 & ->);
+          rewrite Hlen in Hf0; destruct (IH _ _ _ HLF' Hf0) as (T0 & Hp0 & Hw0 & _);
+          rewrite <- Happ in Hp0; rewrite <- (Happ T0) in Hp0; eauto 10. }
+      destruct Hcommon as (adms0 & T0 & em & -> & Hem & Hp0 & Hw0).
+      pose proof (step_same_end ty' a x T0 pre ety epost [] ind' ty' postS EE Hpre HSpre) as Hstep.
+      set (T1 := indent_hd (end_extra epost ++ T0)) in *.
+      assert (Hw1 : words (title_block ind' ty' postS ++ T1) = lw x ++ flat_map lw r).
+      { rewrite words_app, words_title_block by assumption. subst T1.
+        rewrite words_indent_hd, words_app, words_end_extra, Hw0, Hlwx. now rewrite <- !app_assoc. }
+      destruct cur as [[[cty cst] ceo]|]; cbn [post_cond]; subst em.
+      * intros a1 ls a2 ind post -> -> Hopen.
+        rewrite !process_rec_app, Hp0. cbn [process_rec bind app]. rewrite Hstep. cbn [bind].
+        unfold close_at.
+        unfold title_block at 1. cbn [app].
+        match goal with |- context [ (a1 ++ ls :: a2) ++ title_line ind' ty' :: ?TT ] =>
+          destruct (close_noend a1 ls a2 cty ceo ind post (title_line ind' ty') TT Hopen
+                      (titled_end _ (ex_intro _ ind' (ex_intro _ ty' (conj Hi' (conj Hty' eq_refl))))))
+            as (T' & Hs & Hw) end.
+        exists T'. split; [exact Hs|]. rewrite Hw. f_equal. exact Hw1.
+      * rewrite !process_rec_app, Hp0. cbn [bind app process_rec]. rewrite Hstep. cbn [bind process_rec].
+        eexists. split; [reflexivity|]. split; [exact Hw1|]. split.
+        -- intros _. now apply title_block_titled.
+        -- intros [Hc _]. congruence.
+    + (* ---- start marker only ---- *)
+      destruct Hx as (-> & Hi' & Hty' & Hlwx).
+      assert (Hne : is_empty x = false).
+      { destruct x; [rewrite adm_search_nil in ES; discriminate|reflexivity]. }
+      rewrite Hne in Hfind.
+      assert (Hopen' : open_ok a x [] ty' None ind' post').
+      { constructor; auto. }
+      assert (Hcommon : exists adms0 T0 em,
+                 adms = em ++ adms0 /\
+                 em = match cur with Some c => [close_at c (length a)] | None => [] end /\
+                 process_rec adms0 (a ++ x :: r) = Ok (a ++ title_block ind' ty' post' ++ T0) /\
+                 words T0 = flat_map lw r).
+      { destruct cur as [[[cty cst] ceo]|]; apply lift_ok in Hfind as (adms0 & Hf0 & ->);
+          rewrite Hlen in Hf0; pose proof (IH _ _ _ HLF' Hf0) as Hpc; cbn [post_cond] in Hpc;
+          destruct (Hpc a x [] ind' post' eq_refl eq_refl Hopen') as (T0 & Hp0 & Hw0);
+          rewrite <- Happ in Hp0; eauto 10. }
+      destruct Hcommon as (adms0 & T0 & em & -> & Hem & Hp0 & Hw0).
+      assert (Hw1 : words (title_block ind' ty' post' ++ T0) = lw x ++ flat_map lw r).
+      { rewrite words_app, words_title_block by assumption. now rewrite Hw0, Hlwx. }
+      destruct cur as [[[cty cst] ceo]|]; cbn [post_cond]; subst em.
+      * intros a1 ls a2 ind post -> -> Hopen.
+        rewrite process_rec_app, Hp0. cbn [process_rec bind app]. unfold close_at.
+        unfold title_block at 1. cbn [app].
+        match goal with |- context [ (a1 ++ ls :: a2) ++ title_line ind' ty' :: ?TT ] =>
+          destruct (close_noend a1 ls a2 cty ceo ind post (title_line ind' ty') TT Hopen
+                      (titled_end _ (ex_intro _ ind' (ex_intro _ ty' (conj Hi' (conj Hty' eq_refl))))))
+            as (T' & Hs & Hw) end.
+        exists T'. split; [exact Hs|]. rewrite Hw. f_equal. exact Hw1.
+      * cbn [app]. rewrite Hp0. eexists. split; [reflexivity|]. split; [exact Hw1|]. split.
+        -- intros _. now apply title_block_titled.
+        -- intros [Hc _]. congruence.
+    + (* ---- end marker only ---- *)
+      destruct cur as [[[cty cst] ceo]|]; [|discriminate].
+      destruct (str_eqb (lower ety) (lower cty)); [|discriminate].
+      apply lift_ok in Hfind as (adms0 & Hf0 & ->). rewrite Hlen in Hf0.
+      destruct (IH _ _ _ HLF' Hf0) as (T0 & Hp0 & Hw0 & _).
+      rewrite <- Happ in Hp0. rewrite <- (Happ T0) in Hp0.
+      cbn [post_cond]. intros a1 ls a2 ind post -> -> Hopen. cbn [app].
+      cbn [process_rec]. rewrite Hp0. cbn [bind].
+      destruct (close_end a1 ls a2 cty ceo ind post x pre ety epost T0 Hopen EE) as (T' & Hs & Hw).
+      exists T'. split; [exact Hs|]. rewrite Hw, Hw0. cbn [flat_map]. rewrite Hx.
+      now rewrite <- !app_assoc.
+    + (* ---- plain line ---- *)
+      destruct cur as [[[cty cst] ceo]|].
+      * apply lift_ok in Hfind as (adms0 & Hf0 & ->). rewrite Hlen in Hf0. cbn [app].
+        pose proof (IH _ _ _ HLF' Hf0) as Hpc. cbn [post_cond] in *.
+        intros a1 ls a2 ind post -> -> [HS HE Hi Hty Hlw Hpl Heo].
+        assert (Hopen' : open_ok a1 ls (a2 ++ [x]) cty
+                           match ceo with
+                           | Some _ => ceo
+                           | None => if is_empty x then Some (length (a1 ++ ls :: a2)) else None
+                           end ind post).
+        { constructor; auto.
+          - apply Forall_app. split; auto. constructor; [now split|constructor].
+          - destruct ceo as [e0|].
+            + destruct Heo as (m & m2 & -> & ->). exists m, (m2 ++ [x]). split; [app_norm|reflexivity].
+            + destruct (is_empty x) eqn:Hemp; [|exact I]. apply is_empty_spec in Hemp. subst x.
+              exists a2, []. split; reflexivity. }
+        destruct (Hpc a1 ls (a2 ++ [x]) ind post ltac:(app_norm) eq_refl Hopen') as (T' & Hp & Hw).
+        rewrite <- Happ in Hp. exists T'. split; [exact Hp|].
+        rewrite Hw, words_app, words_cons. cbn [words flat_map]. rewrite Hx, app_nil_r.
+        now rewrite <- !app_assoc.
+      * apply lift_ok in Hfind as (adms0 & Hf0 & ->). rewrite Hlen in Hf0. cbn [app].
+        destruct (IH _ _ _ HLF' Hf0) as (T0 & Hp0 & Hw0 & _).
+        rewrite <- Happ in Hp0. rewrite <- (Happ T0) in Hp0. cbn [post_cond].
+        exists (x :: T0). split; [exact Hp0|]. split.
+        -- rewrite words_cons, Hw0. cbn [flat_map]. now rewrite Hx.
+        -- split; [congruence|]. intros _. now exists T0.
+Qed.
